@@ -198,7 +198,7 @@ class Hasher(Pickler):
             Pickler._batch_setitems(
                 self, iter(_sorted_total(items, key=lambda kv: kv[0])), *args
             )
-        except TypeError:
+        except (TypeError, decimal.InvalidOperation):
             # If keys are unorderable, sorting them using their hash. This is
             # slower but works in any case.
             Pickler._batch_setitems(
